@@ -12,7 +12,7 @@ MANIFEST = dict(
          "state graph is replayed on the real TxPool and the hook-emitted linearised events (results of AddTx/AddTxs/GetTxs/DelTxs) are "
          "validated by TLC against the order-insensitive set semantics; concurrent 8-goroutine runs of the real pool are validated the same way.",
     note="The hook runs under pool.RW after the state change (deferred before Unlock), sequence numbers are taken under the same lock. "
-         "The abstract semantics allows the documented box-dropped-with-its-sub-tx behaviour. Fork-switch clause is exercised by the engine checks (C03/C20 drivers).",
+         "The abstract semantics allows the documented box-dropped-with-its-sub-tx behaviour. The fork-switch clause is checked through a real engine (PoolFork.tla: every tree of 4 blocks carrying <=1 of 3 transactions each, every insertion order; quick replays a seeded sample of 600 of the 34k behaviours).",
     technique="TLA+ model checking (TxPool.tla) + replay of the full TLC state graph on the real pool + TLC trace validation (TraceTxPool.tla over TxPoolAbs.tla)")
 
 
@@ -51,5 +51,11 @@ def run(ctx):
             raise __import__("vlib").Broken("race driver failed: " + rr.stdout[-2000:])
         else:
             ctx.validate("TraceTxPool", "TraceTxPool.cfg", [conc2], what="8-goroutine runs (-race build)", timeout=1800)
+    # fork-switch clause through the real engine: PoolFork.tla
+    pdot = ctx.path("poolfork.dot")
+    ctx.tlc_exhaustive("MCPoolFork", "MCPoolFork_n4.cfg", timeout=900, dump=pdot)
+    pfiles, psumm = ctx.replay("poolfork", graph=pdot, shards=16, maxlen=10, limit=600 if ctx.quick() else 12000, chunk=300, timeout=3000)
+    ctx.validate("TracePoolFork", "TracePoolFork.cfg", pfiles, what="engine fork switches with a full pool", timeout=1800)
+    ctx.extra["poolfork"] = dict(behaviours_total=psumm["behaviours_total"], replayed=psumm["behaviours"], graph_edges=psumm["graph_edges"])
     ctx.assumptions += ["transactions are identified by hash; the universe is 3 plain txs and 2 overlapping boxes (model) / 10 txs and 3 boxes (concurrent driver)",
                         "the order in which GetTxs hands out transactions is not constrained"]
